@@ -70,7 +70,8 @@ def check(ctx: Ctx) -> str:
     isc = repo.func("sandbox:SandboxedEnvironment.is_safe_callable")
     rets = astq.returns(isc.node)
     # truth table of the whole function body (however it is split into ifs / returns)
-    ok = bool(rets) and _formula_ok(isc.node)  # type: ignore[arg-type]
+    tb_ = astq.bool_table(isc.node, ["getattr(obj, 'unsafe_callable', False)", "getattr(obj, 'alters_data', False)"])
+    ok = bool(rets) and all(v == (not (u or a)) for (u, a), v in tb_.items())
     ctx.check(ok, "is_safe_callable", "sandbox:SandboxedEnvironment.is_safe_callable", "formula", f"is_safe_callable returns `{ast.unparse(rets[0].value) if rets else None}`: it must be false when unsafe_callable or alters_data is set", isc.loc())
     # the marks are read from the object the template is about to call - not from something
     # derived from it (an unwrapped / underlying function carries other marks)
